@@ -210,7 +210,16 @@ fn check_hours(ctx: &Ctx, civ: &Civil, ord: usize, loc: &mut Local) {
   }
   let r = guard(|| {
     let sd = mk(d).get_sixty_cycle_day();
-    sd.get_hours().iter().map(|h| (inst_of(civ, &h.get_solar_time()), h.get_index_in_day(), h.get_day().get_name(), h.get_sixty_cycle().get_name())).collect::<Vec<_>>()
+    let hs = sd.get_hours();
+    for h in hs.iter() {
+      let back = h.get_sixty_cycle_day();
+      // only the day pillar: the slot's day object carries the year / month pillars of the *instant* (C08), which differ
+      // from the day-level ones on a Jie day before the Jie instant
+      if back.get_sixty_cycle().get_name() != sd.get_sixty_cycle().get_name() {
+        panic!("hour slot {} points back to sexagenary day {} (listing day: {})", h.get_index_in_day(), back, sd);
+      }
+    }
+    hs.iter().map(|h| (inst_of(civ, &h.get_solar_time()), h.get_index_in_day(), h.get_day().get_name(), h.get_sixty_cycle().get_name())).collect::<Vec<_>>()
   });
   match r {
     Ok(hs) => {
